@@ -15,15 +15,21 @@
       satisfying them NEVER ends a run with "unknown opcode", "instruction pointer out of bounds" or
       "bad constant" - for every object, state, step budget and call depth (the instruction pointer
       only ever stands on instruction starts);
-    * per instruction: with at least `pops i` values on the stack the VM does not report an
-      underflow at that instruction, and operators never report any of the internal classes.
-  The stack-depth certificate's global soundness (no underflow on any path, given that calls push a
-  value) is validated by `certOk` on every generated program but its Lean proof against the VM loop is
-  not part of this file: see `C18_stack_partial` below for what is proved.
+    * a program accepted by the verifier carries a valid stack-depth certificate, and a machine whose
+      bodies carry one NEVER ends a run in a stack underflow, given that called functions return a
+      value (the property's proviso) - induction over the VM loop with the invariant "the
+      instruction pointer is on a certified instruction start and the stack is at least as deep as
+      certified";
+    * for ALL scripts: emitted sizes, closed jumps, constant references, function bodies end in a
+      return; a script prepared with NoOptimize never hits a decode error.
+  Not proved: that the optimizer preserves these conditions, and that the compiler's output always
+  carries a valid stack certificate (it does not: known finding KF-25); both are checked by running
+  the verifier on the real bytes of every generated program.
 -/
 import EvalFilter.Model.Api
 import EvalFilter.Proofs.WFCheck
 import EvalFilter.Proofs.CompStatic
+import EvalFilter.Proofs.WFStackLoop
 import EvalFilter.Props.Tables
 
 namespace EvalFilter.Props.C18
@@ -108,17 +114,31 @@ theorem C18_unoptimized_no_decode_errors (script : List Char) (env : Env) (fns :
   simp only [internalStatic, not_or] at this
   exact this
 
-/-! ### the stack: what is proved (partial) -/
+/-! ### the stack -/
 
-/-- the checker refuses an instruction whose certified depth is below what it pops -/
-theorem C18_stack_partial (cert : Cert) (len : Nat) (prev : Bool) (off : Nat) (i : Instr) (d : Nat)
-    (hc : cert.get off = some d) (h : instrCert cert len prev off i = none) : pops i ≤ d := by
-  unfold instrCert at h
-  rw [hc] at h
-  simp only at h
-  split at h
-  · cases h
-  · omega
+/-- one instruction: with the certified depth on the stack (or, right after an exhausted
+    OpIterationNext, one less with `false` on top) the VM does not report an underflow, and continues
+    at a successor the certificate covers with the depth it promises there -/
+theorem C18_step_stack (M : Machine) (obj : HostVal) (codeLen : Nat) (runBody : Bytes → RunSt → Res × RunSt)
+    (i : Instr) (next : Nat) (stack : List Value) (st : RunSt) (a : Bool) (d : Nat)
+    (ha : a = true → i.op = .jumpIfFalse) (hd : Depth a d stack) (hp : pops i ≤ d) (hnv : NoVoidFns M)
+    (hrunV : ∀ uf, uf ∈ M.funcs → ∀ s v, (runBody uf.code s).1 = .ok v → v.isType .VOID = false)
+    (hrunU : ∀ uf, uf ∈ M.funcs → ∀ s, (runBody uf.code s).1 ≠ err "underflow") :
+    StackStep i next a d (step M obj codeLen runBody i.op.toNat i.arg next stack st) :=
+  step_stack M obj codeLen runBody i next stack st a d ha hd hp hnv hrunV hrunU
+
+/-- the executable verifier implies the declarative certificate conditions, for every body -/
+theorem C18_verifier_stack_sound (cs : List Bool) (main : Bytes) (funcs : List Bytes) (h : check cs main funcs = none) :
+    (∃ instrs cert, StaticOk cs.length main instrs ∧ StackOk main instrs cert) ∧
+    ∀ f, f ∈ funcs → ∃ instrs cert, StaticOk cs.length f instrs ∧ StackOk f instrs cert :=
+  check_stack cs main funcs h
+
+/-- **A machine that passes the verifier never ends a run in a stack underflow, given that called
+    functions return a value** (the property's own proviso, `CallsReturnValues`): every object, state,
+    step budget and call depth. -/
+theorem C18_no_underflow (M : Machine) (h : checkMachine M = none) (obj : HostVal)
+    (hcv : CallsReturnValues M obj) (fuel : Nat) (st : RunSt) : (run M obj fuel st).1 ≠ err "underflow" :=
+  run_stack M h obj hcv fuel st
 
 /-- non-vacuity: the hypotheses of the theorems are met by real compiled programs, and the verifier
     is not trivially permissive: it rejects a jump into the middle of an instruction, a constant index
